@@ -5,6 +5,7 @@ go 1.25.0
 require (
 	github.com/elk-language/elk v0.0.0
 	github.com/fatih/color v1.15.0
+	github.com/rivo/uniseg v0.4.7
 	pgregory.net/rapid v1.3.0
 )
 
@@ -31,7 +32,6 @@ require (
 	github.com/muesli/cancelreader v0.2.2 // indirect
 	github.com/muesli/termenv v0.16.0 // indirect
 	github.com/pkg/term v1.2.0-beta.2 // indirect
-	github.com/rivo/uniseg v0.4.7 // indirect
 	github.com/xo/terminfo v0.0.0-20220910002029-abceb7e1c41e // indirect
 	golang.org/x/exp v0.0.0-20250305212735-054e65f0b394 // indirect
 	golang.org/x/sync v0.20.0 // indirect
